@@ -25,6 +25,14 @@ ASSUMPTIONS = ["the model's 1-D rule is the exact 17-point Newton-Cotes rule (ex
                "Adaptive-Simpson, plus the rounding floor 256 * 2^-53 * (integral of |f| resp. sum of |terms|); '1e-6' of Trapezoidal is judged "
                "relative to the integral of |f|: relative to |I| it fails for damped oscillations with cancelling I (audit probe: 600 of 3000 "
                "runs, worst 3.8e-4) - an interpretation of 'relative', not a tolerance",
+               "Trapezoidal, damped oscillations: the generated damping is capped at e^-2 over the interval; beyond damping*L ~ 3 Boost's 2048-panel "
+               "limit misses 1e-6 even relative to the integral of |f| (audit: 46% of the cases at damping*L = 5, 100% at 50) - outside the generated range",
+               "peaked families (rational, Gaussian): widths between L/64 and ~L are generated for all methods; sharper peaks only for Gauss-Kronrod with "
+               "an explicit depth (see _gk_depth_needed)",
+               "outside the quantifier, not generated: Vegas with method_parameter < ~30 (SIGFPE at 1 or negative), Gauss-Legendre_2 with a negative "
+               "number of points (bad_alloc), Tanh-Sinh on integrands with e^-50 contrast (Boost exception)",
+               "KNOWN DEFECT (known_findings.json): 'Adaptive-Simpson' accepts a panel at the first accidental zero of S2 - S; ~2e-4 of the family "
+               "members miss 1e-9 relative (worst seen 1.2e-7); seen deterministically by c13.sweep and the three c13.asknown* replays",
                "Trapezoidal: Boost stops after 2048 panels, the leading Euler-Maclaurin term bounds the error by 0.89e-6 * integral |f| "
                "on the whole damped-oscillation domain (<= 2 periods, damping <= e^-2), so 1e-6 is met with ~10% margin"]
 TRUSTED = ["mpmath.quad (30 digits) as reference for the non-polynomial families",
@@ -40,9 +48,9 @@ REL_DEFAULT = Fraction(1, 10 ** 9)
 def _param(rng, m, degree):
     """explicit method_parameter values that keep the method accurate on the integrand"""
     if m == "Gauss-Kronrod":
-        return rng.choice([3, 5, 8])
+        return rng.choice([1, 2, 3, 5, 8])      # (31-point panels: polynomials and the mild families converge at depth <= 1)
     if m == "Gauss-Legendre_2":   # odd and even numbers of evaluation points
-        return rng.choice([n for n in (3, 5, 7, 8, 9, 12, 13, 16, 25, 31, 40, 41) if 2 * n - 1 >= degree] or [41])
+        return rng.choice([n for n in (3, 5, 7, 8, 9, 12, 13, 16, 25, 31, 40, 41, 64, 100) if 2 * n - 1 >= degree] or [41])
     return rng.choice([1, 7])      # ignored by the method
 
 
@@ -384,6 +392,126 @@ def generate(tier, seed, ctx):
             if not (slow and t % 2 == 0) and not (m == "Tanh-Sinh" and not thorough and t > 0):
                 add("c13.neg 3 %s 0 %s %s %s %s %s %s %s %s %s" % (m, hx(x1), hx(x2), hx(y1), hx(y2), hx(z1), hx(z2),
                                                                 _famstr(fx), _famstr(fy), _famstr(fz)), cls="neg3")
+    # ---- a named method inside the integrand of a named method (other method / other parameter / limits depending on x) ----
+    def nest(m1, p1, m2, p2, cheap_only=False):
+        a0, b0 = _pair(rng, -2, 2, rng.randrange(2))
+        kind = rng.randrange(4)
+        if kind == 0:
+            l0, l1, h0, h1 = 0.0, 0.0, 0.0, 1.0            # y from 0 to x
+        elif kind == 1:
+            l0, l1, h0, h1 = 0.0, 1.0, 3.0, 0.0            # y from x to 3
+        elif kind == 2:
+            l0, l1, h0, h1 = dyadic(rng, -2, 0, 1), dyadic(rng, -1, 1, 1), dyadic(rng, 1, 3, 1), dyadic(rng, -1, 1, 1)
+        else:
+            l0, l1, h0, h1 = dyadic(rng, -2, 0, 1), 0.0, dyadic(rng, 1, 3, 1), 0.0     # fixed inner limits
+        slow = "Trapezoidal" in (m1, m2) or cheap_only
+        lim = 3
+        for mm, pp in ((m1, p1), (m2, p2)):
+            if mm == "Gauss-Legendre_2" and pp:
+                lim = min(lim, max(0, (2 * pp - 1 - 1) // 2))
+        jm = min(1 if slow else 3, lim)
+        ts = [(float(rng.choice([-2, -1, 1, 2, 3])), rng.randint(0, min(1 if slow else 2, lim)), rng.randint(0, jm), 0) for _ in range(2)]
+        ts.append((2.0, 0, min(1, jm), 0))
+        add("c13.nest %s %d %s %d %s %s %s %s %s %s %s" % (m1, p1, m2, p2, hx(a0), hx(b0), hx(l0), hx(l1), hx(h0), hx(h1), _terms(ts)),
+            cls="nest")
+    G2, GK_ = "Gauss-Legendre_2", "Gauss-Kronrod"
+    for (p1, p2) in ((0, 40), (0, 8), (40, 0), (9, 31), (31, 9), (5, 4)):          # same method, different node counts
+        nest(G2, p1, G2, p2)
+    for (p1, p2) in ((0, 12), (12, 0), (3, 8)):
+        nest(GK_, p1, GK_, p2)
+    for i1, m1 in enumerate(METHODS):
+        for i2, m2 in enumerate(METHODS):
+            if not thorough and (i1 + 2 * i2 + seed) % 3 != 0 and m1 != m2:
+                continue
+            if "Trapezoidal" in (m1, m2) and m1 != m2 and not thorough and (i1 + i2 + seed) % 2:
+                continue
+            nest(m1, 0 if (i1 + i2) % 2 else _param(rng, m1, 7), m2, _param(rng, m2, 7) if (i1 + i2) % 2 else 0)
+    # ---- first evaluations of the spherical overload in a FRESH process: every method x {default/symmetric range of
+    # cos theta, range starting or ending at 0, generic}: the recorded-vector clause on every vector of the first sweep ----
+    for m in METHODS:
+        for k_ in range(6 if not thorough else 12):
+            r1, r2 = _pair(rng, 0.2, 3.0, k_ % 2)
+            c0 = round(rng.uniform(0.2, 0.95), 3)
+            c1, c2 = [(-1.0, 1.0), (-c0, c0), (0.0, c0), (c0, 0.0), (-c0, 0.0), _pair(rng, -0.95, 0.95, 0)][k_ % 6]
+            if k_ % 6 in (0, 1) and k_ >= 6:
+                c1, c2 = c2, c1
+            f1, f2 = (0.0, 2 * math.pi) if k_ % 3 == 0 else _pair(rng, -3.0, 3.0, k_ % 2)
+            p = 0 if k_ % 2 == 0 else _param(rng, m, 6)
+            add("c13.sphfirst %s %d %s %s %s %s %s %s" % (m, p, hx(r1), hx(r2), hx(c1), hx(c2), hx(f1), hx(f2)), cls="sphfirst")
+    # ---- audit D additions --------------------------------------------------------------------------------------
+    # batch sweeps judged inside the harness against long-double closed forms (all six methods; the generator's own ranges)
+    for m in METHODS:
+        nsw = 20000 if (m == "Adaptive-Simpson" or thorough) else 3000
+        if m == "Trapezoidal":
+            nsw = 4000 if thorough else 600
+        add("c13.sweep %s %d %d" % (m, nsw, seed), cls="sweep")
+    # the three inputs on which 'Adaptive-Simpson' misses 1e-9 relative (accidental zero of S2 - S accepted at the first hit)
+    add("c13.asknown Adaptive-Simpson 0 %s %s %s" % (hx(-1.0), hx(3.3), _famstr((1, 0.2, 0.0, 0.1))), cls="as-known")
+    add("c13.asknown Adaptive-Simpson 0 %s %s %s" % (hx(1.879337883194661), hx(4.2891839740241835),
+                                                   _famstr((1, 1.0323651571500432, 4.1594401570168316, 0.35241153956725901))), cls="as-known")
+    add("c13.asknownp Adaptive-Simpson 0 %s %s %s" % (hx(-2.589), hx(2.878), _terms([(1.0, 7, 0, 0), (-1.0, 5, 0, 0)])), cls="as-known")
+    # equal limits on one or more axes: exactly zero, for all nine methods (2-D, 3-D, spherical)
+    for m in METHODS + MC:
+        for t in range(2 if not thorough else 4):
+            (x1, x2), (y1, y2), (z1, z2) = _disjoint_pairs(rng, 3, rng.randrange(8))
+            mask = [1, 2, 4, 3, 5, 6, 7][(t * 3 + len(m) + seed) % 7]
+            L2 = [x1, x1 if mask & 1 else x2, y1, y1 if mask & 2 else y2]
+            if not (mask & 3):
+                L2[3] = L2[2]
+            add("c13.int2 %s 0 %s %s %s %s %d %s" % (m, hx(L2[0]), hx(L2[1]), hx(L2[2]), hx(L2[3]), rng.randint(1, 10 ** 6),
+                                                    _terms([(1.0, 1, 2, 0), (3.0, 0, 0, 0)])), cls="eq2", orient=0, pc=False)
+            L3 = [x1, x1 if mask & 1 else x2, y1, y1 if mask & 2 else y2, z1, z1 if mask & 4 else z2]
+            add("c13.int3 %s 0 %s %s %s %s %s %s %d %s" % ((m,) + tuple(hx(v) for v in L3) + (rng.randint(1, 10 ** 6),
+                                                          _terms([(1.0, 1, 0, 0), (2.0, 0, 1, 0), (3.0, 0, 0, 1), (5.0, 0, 0, 0)]))), cls="eq3", orient=0, pc=False)
+            r1, r2 = _pair(rng, 0.5, 2.0, 0); c1, c2 = _pair(rng, -0.9, 0.9, 0); f1, f2 = _pair(rng, -2.0, 2.0, 0)
+            S = [r1, r1 if mask & 1 else r2, c1, c1 if mask & 2 else c2, f1, f1 if mask & 4 else f2]
+            add("c13.sph %s 0 %s %s %s %s %s %s %d %s" % ((m,) + tuple(hx(v) for v in S) + (rng.randint(1, 10 ** 6),
+                                                         _terms([(1.0, 1, 0, 0), (2.0, 0, 0, 0)]))), cls="eqsph", orient=0, pc=False)
+    # Monte-Carlo front ends with reversed limits: orientations 1..7, the sign of the result follows the limits
+    for m in MC:
+        for orient in ([1, 2, 3, 5, 6, 7, 4] if thorough else [[1, 6], [2, 5], [3, 4], [7, 1]][(seed + len(m)) % 4]):
+            (x1, x2), (y1, y2), (z1, z2) = _disjoint_pairs(rng, 3, orient)
+            sd = rng.randint(1, 10 ** 6)
+            add("c13.int2 %s 0 %s %s %s %s %d %s" % (m, hx(x1), hx(x2), hx(y1), hx(y2), sd,
+                                                    _terms([(1.0, 2, 0, 0), (2.0, 0, 2, 0), (1.0, 1, 1, 0), (30.0, 0, 0, 0)])),
+                cls="mc-rev", orient=orient & 3, pc=False)
+            add("c13.int3 %s 0 %s %s %s %s %s %s %d %s" % (m, hx(x1), hx(x2), hx(y1), hx(y2), hx(z1), hx(z2), sd,
+                                                          _terms([(1.0, 2, 0, 0), (2.0, 0, 2, 0), (3.0, 0, 0, 2), (40.0, 0, 0, 0)])),
+                cls="mc-rev", orient=orient, pc=False)
+    # explicit Gauss-Kronrod depths 1, 2 and Gauss-Legendre_2 with 64 / 100 nodes
+    for (m, p) in (("Gauss-Kronrod", 1), ("Gauss-Kronrod", 2), ("Gauss-Legendre_2", 64), ("Gauss-Legendre_2", 100)):
+        a, b = _pair(rng, -5, 5, p % 2)
+        add("c13.fam1 %s %d %s %s %s" % (m, p, hx(a), hx(b), _famstr(_fam(rng, a, b))), cls="fam-param", orient=p % 2, pc=p)
+        ts = [(c, i, 0, 0) for c, i, _, _ in _rterms(rng, 1, [12, 0, 0], 3)] + [(1.0, 12, 0, 0)]
+        add("c13.int1 %s %d %s %s %s" % (m, p, hx(b), hx(a), _terms(ts)), cls="poly-param", orient=1 - p % 2, pc=p)
+        (x1, x2), (y1, y2) = _disjoint_pairs(rng, 2, rng.randrange(4))
+        add("c13.fam2 %s %d %s %s %s %s 1 %s %s" % (m, p, hx(x1), hx(x2), hx(y1), hx(y2), _famstr(_fam(rng, x1, x2)), _famstr(_fam(rng, y1, y2))),
+            cls="fam-param", orient=0, pc=p)
+    # defaults of Integrate_2D, the Cartesian Integrate_3D and the partial angular defaults of the spherical overload
+    (x1, x2), (y1, y2), (z1, z2) = _disjoint_pairs(rng, 3, rng.randrange(8))
+    add("c13.default23 %s %s %s %s %s %s" % (hx(x1), hx(x2), hx(y1), hx(y2), hx(z1), hx(z2)), cls="default")
+    # spherical: phi ranges beyond pi, cos(theta) ranges touching +-1, for the four cheaper methods; one radial exp / Gaussian
+    for m in ("Gauss-Legendre", "Gauss-Kronrod", "Gauss-Legendre_2", "Adaptive-Simpson"):
+        low = m == "Adaptive-Simpson"
+        for t in range(2):
+            r1, r2 = _pair(rng, 0.2, 3.0, t)
+            c1, c2 = [(-1.0, round(rng.uniform(-0.5, 0.9), 3)), (round(rng.uniform(-0.9, 0.5), 3), 1.0)][(t + seed) % 2]
+            f1, f2 = [(round(rng.uniform(2.0, 3.0), 3), round(rng.uniform(4.0, 6.2), 3)), (round(rng.uniform(-6.2, -4.0), 3), round(rng.uniform(-3.0, -1.0), 3))][t]
+            if (seed + t) % 2:
+                f1, f2 = f2, f1
+            # (on the polar axis the azimuth is undefined, so a function of the VECTOR cannot depend on phi there: no phi terms)
+            md = [1, 1, 0] if low else [3, 3, 0]
+            ts = _rterms(rng, 3, md, 2) + [(1.0, 1, 1, 0), (4.0, 0, 0, 0)]
+            add("c13.sph %s 0 %s %s %s %s %s %s 1 %s" % (m, hx(r1), hx(r2), hx(c1), hx(c2), hx(f1), hx(f2), _terms(ts)),
+                cls="sub-edge", orient=t, pc=False)
+    mrad = ["Gauss-Legendre", "Gauss-Kronrod", "Gauss-Legendre_2", "Tanh-Sinh"][seed % 4]
+    add("c13.sphrad %s 0 %s %s 0 %s" % (mrad, hx(0.0), hx(round(rng.uniform(2.0, 6.0), 3)), hx(round(rng.uniform(0.5, 2.0), 3))), cls="sphrad")
+    add("c13.sphrad %s 0 %s %s 1 %s" % ("Gauss-Legendre", hx(round(rng.uniform(0.1, 1.0), 3)), hx(round(rng.uniform(2.0, 5.0), 3)), hx(round(rng.uniform(0.5, 1.5), 3))), cls="sphrad")
+    # one Adaptive-Simpson product of three smooth family members per seed
+    (x1, x2), (y1, y2), (z1, z2) = _disjoint_pairs(rng, 3, rng.randrange(8))
+    add("c13.fam3 Adaptive-Simpson 0 %s %s %s %s %s %s 1 %s %s %s" % (hx(x1), hx(x2), hx(y1), hx(y2), hx(z1), hx(z2),
+                                                                   _famstr((2, (x1 + x2) / 2, 3 * abs(x2 - x1), 0.5)), _famstr((1, 0.1 / (y2 - y1) ** 2, y1, 0.5)),
+                                                                   _famstr((2, z1, 3 * abs(z2 - z1), 0.5))), cls="fam-as3", orient=0, pc=False)
     # ---- Monte-Carlo front ends --------------------------------------------------------------------
     for m in MC:
         for t in range(2 * rep):
@@ -408,7 +536,8 @@ def generate(tier, seed, ctx):
     for nm in BOGUS + METHODS[:2] + MC[:1]:
         add("c13.outcome2 %s" % nm, cls="bad2")
         add("c13.outcome3 %s" % nm, cls="bad3")
-        add("c13.outcomesph %s" % nm, cls="badsph")
+        if nm != "Trapezoidal":      # (a recognised name runs the whole integration: ~2 s for Trapezoidal)
+            add("c13.outcomesph %s" % nm, cls="badsph")
         add("c13.outcomemc %s" % nm, cls="badmc")
     # ---- helpers ------------------------------------------------------------------------------------------
     for t in range(30 * rep):
@@ -473,6 +602,8 @@ def _ranges(vals, lims, slack=Fraction(0)):
     for ax, (a, b) in enumerate(lims):
         sl = slack[ax] if isinstance(slack, list) else slack
         lo, hi = vals[2 * ax], vals[2 * ax + 1]
+        if math.isinf(lo) and math.isinf(hi):      # nothing recorded on this axis (no evaluation)
+            continue
         if math.isnan(lo) or math.isnan(hi):
             bad.append(ax); continue
         mn, mx = min(a, b), max(a, b)
@@ -646,6 +777,160 @@ def compare_seq(rq, impl, model, ctx):
     return out
 
 
+def _padd(p, q):
+    n = max(len(p), len(q))
+    return [(p[i] if i < len(p) else 0) + (q[i] if i < len(q) else 0) for i in range(n)]
+
+
+def _pmul(p, q):
+    r = [Fraction(0)] * (len(p) + len(q) - 1)
+    for i, x in enumerate(p):
+        for j, y in enumerate(q):
+            r[i + j] += x * y
+    return r
+
+
+def _ppow(p, k):
+    r = [Fraction(1)]
+    for _ in range(k):
+        r = _pmul(r, p)
+    return r
+
+
+def compare_nest(rq, impl, model, ctx):
+    """re-entrant use (theorems nested_methods_eq / nested_methods_ordered): Integrate(F,a,b,M1,p1) with
+    F(x) = Integrate(g(x,.), lo(x), hi(x), M2, p2) equals M1 applied to the recorded values of F (class D, bit for bit, every
+    outer evaluation point of the second run already seen in the first) and the exact iterated integral (accuracy)"""
+    a = rq.split()[1:]
+    m1, p1, m2, p2 = a[0], int(a[1]), a[2], int(a[3])
+    x0, x1, l0, l1, h0, h1 = [Fraction(fl(t)) for t in a[4:10]]
+    ts, _ = _parse_terms(a, 10)
+    fs, both = std_outcome(rq, impl, model)
+    if tag(impl) == "timeout":
+        return [fail("prop", "integration does not terminate within the time limit", rq[:80])]
+    ctx["nontrivial"].add(("c13.nest", m1, p1 != 0, m2, p2 != 0, l1 != 0 or h1 != 0))
+    if not both:
+        return fs
+    t = toks(impl)
+    v1, v2 = fl(t[0]), fl(t[1])
+    n1, n2, misses = int(t[2]), int(t[3]), int(t[4])
+    lo, hi = fl(t[5]), fl(t[6])
+    out = list(fs)
+    what = "outer %s (parameter %d), integrand calls %s (parameter %d)" % (m1, p1, m2, p2)
+    if misses or n1 != n2 or t[0] != t[1]:
+        out.append(fail("prop", "nested use of the named methods: result is not the outer integral of the integrand's values",
+                        "%s: nested run %r with %d outer evaluations; the outer method alone on the recorded values %r with %d "
+                        "evaluations, %d of them at points the nested run never evaluated" % (what, v1, n1, v2, n2, misses)))
+    if n1 and (Fraction(lo) < min(x0, x1) or Fraction(hi) > max(x0, x1)):
+        out.append(fail("prop", "integrand evaluated outside the limits", "%s: outer points in [%r, %r]" % (what, lo, hi)))
+    # exact iterated integral of the polynomial with affine inner limits
+    tot, scale = Fraction(0), Fraction(0)
+    X = max(abs(x0), abs(x1))
+    Y = max(abs(l0) + abs(l1) * X, abs(h0) + abs(h1) * X)
+    Wd = abs(h0 - l0) + abs(h1 - l1) * X
+    for c, i, j, _k in ts:
+        inner = [q / (j + 1) for q in _padd(_ppow([h0, h1], j + 1), [-q for q in _ppow([l0, l1], j + 1)])]
+        poly = _pmul([Fraction(0)] * i + [Fraction(1)], inner)
+        tot += c * sum(ck * (x1 ** (m + 1) - x0 ** (m + 1)) / (m + 1) for m, ck in enumerate(poly))
+        scale += abs(c) * X ** i * Y ** j * Wd * abs(x1 - x0)
+    if fr(toks(model)[0]) != tot:
+        out.append(fail("corr", "model value is not the exact iterated integral (reference rule not exact?)", ""))
+    rel = max(REL.get(m1, REL_DEFAULT), REL.get(m2, REL_DEFAULT)) * 2
+    meth = "Trapezoidal" if "Trapezoidal" in (m1, m2) else m1
+    tol = _tolerance(meth, rel, tot, scale)
+    if math.isnan(v1) or math.isinf(v1):
+        return out + [fail("prop", "result is not finite", what)]
+    _worst(ctx, "nest %s/%s err/tol" % (m1, m2), float(abs(Fraction(v1) - tot) / tol) if tol else 0.0)
+    if abs(Fraction(v1) - tot) > tol:
+        out.append(fail("prop", "nested integral outside the method's accuracy of the exact iterated integral",
+                        "%s: %r vs %.17g (scale %.3g)" % (what, v1, float(tot), float(scale))))
+    return out
+
+
+def compare_sphfirst(rq, impl, model, ctx):
+    """the property's own statement on EVERY vector of the first evaluations of the spherical overload in a fresh process:
+    norm r, polar angle acos(cos theta), azimuth phi, where (r, cos theta, phi) are the integration variables — the points
+    the same method evaluates first on the same limits (Cartesian overload)"""
+    a = rq.split()[1:]
+    m = a[0]
+    fs, both = std_outcome(rq, impl, model)
+    if not both:
+        return fs
+    t = toks(impl)
+    nv = int(t[0]); V = [[fl(x) for x in t[1 + 3 * i:4 + 3 * i]] for i in range(nv)]
+    pos = 1 + 3 * nv
+    npt = int(t[pos]); Pt = [[fl(x) for x in t[pos + 1 + 3 * i:pos + 4 + 3 * i]] for i in range(npt)]
+    out = list(fs)
+    L = [fl(x) for x in a[2:8]]
+    ctx["nontrivial"].add(("c13.sphfirst", m, L[2] == -L[3], L[2] == 0.0 or L[3] == 0.0))
+    K = min(8, nv, npt)      # the first evaluation points do not depend on integrand values for any of the six methods
+    if K < 5:
+        return out + [fail("prop", "spherical overload: integrand evaluated fewer than five times", "%d" % nv)]
+    u = 16 * float(EPS)
+    for j in range(K):
+        (vx, vy, vz), (r, c, ph) = V[j], Pt[j]
+        if any(math.isnan(q) for q in V[j]):
+            out.append(fail("prop", "spherical overload: integrand received a vector that is not 3-dimensional", "")); break
+        nrm = math.sqrt(vx * vx + vy * vy + vz * vz)
+        st = math.sqrt(max(0.0, (1 - c) * (1 + c)))
+        bad = []
+        if abs(nrm - abs(r)) > u * abs(r):
+            bad.append("norm %r instead of r = %r" % (nrm, r))
+        if nrm > 0 and abs(vz / nrm - c * (1 if r >= 0 else -1)) > u:
+            bad.append("cos(polar angle) %r instead of the integration variable cos theta = %r" % (vz / nrm, c))
+        if st > 1e-6 and r != 0 and (abs(vx / (r * st) - math.cos(ph)) > 4 * u or abs(vy / (r * st) - math.sin(ph)) > 4 * u):
+            bad.append("azimuth %r instead of phi = %r" % (math.atan2(vy, vx), ph))
+        if bad:
+            out.append(fail("prop", "spherical overload: norm/polar angle/azimuth of the vectors are not the integration variables",
+                            "%s, evaluation %d of a fresh process at (r, cos theta, phi) = (%r, %r, %r): vector (%r, %r, %r): %s"
+                            % (m, j, r, c, ph, vx, vy, vz, "; ".join(bad))))
+            break
+    return out
+
+
+def compare_sweep(rq, impl, model, ctx):
+    """batch of N family members through one named method, judged in the harness against long-double closed forms at the
+    method's accuracy (1e-9 |I| + 256 eps int|f|; Trapezoidal 1e-6 int|f|)"""
+    a = rq.split()[1:]
+    m, N = a[0], int(a[1])
+    fs, both = std_outcome(rq, impl, model)
+    if tag(impl) == "timeout":
+        return [fail("prop", "integration does not terminate within the time limit", rq)]
+    if not both:
+        return fs
+    t = toks(impl)
+    nfail, worst, nb = int(t[1]), fl(t[2]), int(t[3])
+    ctx["nontrivial"].add(("c13.sweep", m))
+    bump(ctx, "sweep:%s:integrands" % m, int(t[0]))
+    _worst(ctx, "sweep %s err/tol" % m, worst if nfail == 0 else 0.0)
+    if nfail == 0:
+        return fs
+    bump(ctx, "sweep:%s:failures" % m, nfail)
+    b = [fl(x) for x in t[4:4 + 9]]
+    fam = {0: "exp(-%r x) cos(%r x + %r)", 1: "1/(1 + %r (x - %r)^2) + %r", 2: "exp(-(x - %r)^2/(2 %r^2)) + %r"}[int(b[0])] % (b[1], b[2], b[3])
+    return fs + [fail("prop", "1-D integral outside the method's accuracy (batch sweep)",
+                      "%s: %d of %d family members miss; first: Integrate(%s, %r, %r) = %.17g vs %.17g (relative %.3g)"
+                      % (m, nfail, int(t[0]), fam, b[4], b[5], b[6], b[7], b[8]))]
+
+
+def compare_sphrad(rq, impl, model, ctx):
+    a = rq.split()[1:]
+    m, r1, r2, kind, par = a[0], fl(a[2]), fl(a[3]), int(a[4]), fl(a[5])
+    fs, both = std_outcome(rq, impl, model)
+    if not both:
+        return fs
+    v = fl(toks(impl)[0])
+    g = (lambda r: r * r * mpmath.exp(-par * r)) if kind == 0 else (lambda r: r * r * mpmath.exp(-r * r / (2 * par * par)))
+    I = 4 * mpmath.pi * mpmath.quad(g, [r1, (r1 + r2) / 2, r2])
+    ref = Fraction(float(I)) + Fraction(float(I - float(I)))
+    ctx["nontrivial"].add(("c13.sphrad", m, kind))
+    tol = _tolerance(m, REL.get(m, REL_DEFAULT) * 3, ref, abs(ref))
+    _worst(ctx, "sphrad %s err/tol" % m, float(abs(Fraction(v) - ref) / tol))
+    if math.isnan(v) or abs(Fraction(v) - ref) > tol:
+        return fs + [fail("prop", "full sphere: result is not 4 pi times the radial integral of r^2 f", "%s: %r vs %.17g" % (m, v, float(ref)))]
+    return fs
+
+
 def compare_neg(rq, impl, model, ctx):
     """'reversing the limits negates the result', per axis, bit for bit (theorems int1_swap, nested_swap_inner,
     nested_swap_axes_3D)"""
@@ -683,6 +968,26 @@ def compare(rq, impl, model, ctx):
         return compare_seq(rq, impl, model, ctx)
     if op == "c13.neg":
         return compare_neg(rq, impl, model, ctx)
+    if op == "c13.nest":
+        return compare_nest(rq, impl, model, ctx)
+    if op == "c13.sweep":
+        return compare_sweep(rq, impl, model, ctx)
+    if op == "c13.sphrad":
+        return compare_sphrad(rq, impl, model, ctx)
+    if op == "c13.default23":
+        fs, both = std_outcome(rq, impl, model)
+        if not both:
+            return fs
+        t = toks(impl)
+        ctx["nontrivial"].add((op,))
+        bad = [i for i in (0, 3) if not (t[i] == t[i + 1] == t[i + 2])] + [i for i in (6, 8, 10) if t[i] != t[i + 1]]
+        return fs + ([fail("prop", "default arguments are not (\"Gauss-Legendre\", 0, full sphere)",
+                           "Integrate_2D / Integrate_3D / partial angular defaults: positions %r of %r" % (bad, [fl(x) for x in t]))] if bad else [])
+    if op in ("c13.asknown", "c13.asknownp"):      # same handling as fam1 / int1 (separate op name: known-finding replays)
+        rq = rq.replace("c13.asknownp", "c13.int1", 1).replace("c13.asknown", "c13.fam1", 1)
+        tk = rq.split(); op, a = tk[0], tk[1:]
+    if op == "c13.sphfirst":
+        return compare_sphfirst(rq, impl, model, ctx)
     fs, both = std_outcome(rq, impl, model)
     if op.startswith("c13.outcome"):
         ctx["nontrivial"].add((op, a[0], tag(model)))
@@ -721,7 +1026,7 @@ def compare(rq, impl, model, ctx):
     out = list(fs)
     ti = toks(impl)
     v, vn = fl(ti[0]), fl(ti[1])
-    rel = Fraction(1, 10) if mc else REL.get(m, REL_DEFAULT)
+    rel = Fraction(2, 100) if mc else REL.get(m, REL_DEFAULT)      # Monte-Carlo front ends: 2% (the seeds are pinned)
     key = (op, m, md.get("cls"), md.get("orient"), md.get("pc"))
     ctx["nontrivial"].add(key)
     if math.isnan(v) or math.isinf(v):
@@ -790,10 +1095,12 @@ def compare(rq, impl, model, ctx):
         if fl(ti[2]) != 0.0:
             out.append(fail("prop", "spherical overload: integrand received a vector that is not 3-dimensional", ""))
         # norm = r, cos(polar angle) = cos_theta, azimuth = phi: each inside its own pair (to rounding)
-        full = md.get("cls") == "full" or (L[4] == 0.0 and L[5] > 6.28)
-        chk = lims[:2] if full else lims
+        # the azimuth is recorded modulo 2 pi (representative next above the lower phi limit), on every vector off the polar axis
+        chk = lims if not math.isinf(rec[4]) else lims[:2]
         # rounding only: 8 * 2^-53 relative to the magnitude of the quantity (norm ~ r, |cos theta| <= 1, |phi|)
         slack = [8 * EPS * max(abs(lo_), abs(hi_), 1) for lo_, hi_ in chk]
+        if len(slack) == 3:
+            slack[2] = 16 * EPS * max(abs(chk[2][0]), abs(chk[2][1]), 7)      # atan2 + the 2 pi shift
         bad = _ranges(rec, chk, slack)
         if bad:
             out.append(fail("prop", "spherical overload: norm/polar angle/azimuth of the vectors are not the integration variables",
@@ -804,7 +1111,7 @@ def compare(rq, impl, model, ctx):
         if bad:
             out.append(fail("prop", "an argument of the integrand does not receive the variable of its own pair of limits",
                             "axes %r recorded %r limits %r" % (bad, rec, L)))
-    if calls <= 0:
+    if calls <= 0 and all(lo_ != hi_ for lo_, hi_ in lims):
         out.append(fail("prop", "integrand never evaluated", ""))
     if op in ("c13.int2", "c13.int3", "c13.sph"):
         ts, _ = _parse_terms(a, pos)
@@ -849,8 +1156,12 @@ def oracle_only(rq, impl, ctx):
     op, a = tk[0], tk[1:]
     if op in ("c13.selftest", "c13.checklimits", "c13.findeps"):
         return []
-    if op in ("c13.default1", "c13.sphdefault", "c13.seq", "c13.neg"):
+    if op == "c13.nest":
+        return []      # needs the model's exact value: covered when the Lean side builds
+    if op in ("c13.default1", "c13.sphdefault", "c13.seq", "c13.neg", "c13.sphfirst", "c13.sweep", "c13.sphrad", "c13.default23", "c13.asknown"):
         model = "ok"
+    elif op == "c13.asknownp":
+        return []
     elif op.startswith("c13.outcome"):
         nm = a[0]
         if op == "c13.outcome1":
